@@ -50,7 +50,7 @@ def monotone_in(t, s):
         return False
     if t[0] == 'op':
         n, a = t[1], t[2]
-        if n in ('floor', 'round', 'f2i', 'i2f', 'f2f', 'i2i') and len(a) == 1:
+        if n in ('floor', 'round', 'f2i', 'i2f', 'f2f', 'i2i', 'exp', 'ln', 'sqrt') and len(a) == 1:
             return monotone_in(a[0], s)
         if n in ('min', 'max', 'fmin', 'fmax', 'add') and len(a) == 2:
             x, y = a
